@@ -36,7 +36,7 @@ def mix_helper(ctx, I, w, mode):
     import networkx as nx
     da = nx.descendants(cg, a) if a in cg else set()
     direct_b = set(cg.successors(b)) if b in cg else set()
-    cand = sorted(q_ for q_ in direct_b & da if len(ctx.src.func(q_).node.args.args) == 1)
+    cand = sorted(q_ for q_ in direct_b & da if len(ctx.src.func(q_).node.args.args) == 1 and q_.count(".") == 1)
     if len(cand) != 1:
         raise AnalysisError(f"expected one pair-mixing helper shared by mix_by_{mode} and its parse action, found {cand}")
     q_ = cand[0]
@@ -120,6 +120,13 @@ def _run(ctx):
                at0[Fe] / a[0] * unit(M1, d[0]) * q[2], at0[H] / 2 * unit(M3, d[2]) * q[0], site)
             eq(ctx, "R1", f"by {mode}: density with a zero-quantity component in the middle", I.getattr(r0, "density"),
                (at0[Fe] * mFe + at0[H] * mH) / (at0[Fe] * mFe / d[0] + at0[H] * mH / d[2]), site)
+        # the same compound twice at two densities (two phases) is two components
+        fa = I.call(fm, [{Fe: a[0]}], {"density": d[0]})
+        fb = I.call(fm, [{Fe: a[0]}], {"density": d[1]})
+        rp = I.call(hf, [[(fa, q[0]), (fb, q[1])]], {})
+        want_d = (q[0] + q[1]) / (q[0] / d[0] + q[1] / d[1]) if mode == "weight" else (q[0] * d[0] + q[1] * d[1]) / (q[0] + q[1])
+        eq(ctx, "R1", f"by {mode}: the same compound at two densities: mixture density = total mass / total volume",
+           I.getattr(rp, "density"), want_d, site)
         # a zero-quantity component of unknown density vanishes too (it needs no density)
         g1, g2, g3 = comps(dens=(True, False, True))
         rr = raises(lambda: I.call(hf, [[(g1, q[0]), (g2, sp.Integer(0)), (g3, q[2])]], {}))
@@ -155,7 +162,7 @@ def _run(ctx):
     rr = raises(lambda: I.call(HELPER["volume"][1], [[(f1, q[0]), (f2, q[1])]], {}))
     ctx.check(rr == "ValueError", "R1", "by volume: unknown component density raises ValueError", f"got {rr}",
               fsite(ctx, HELPER["volume"][0]))
-    ctx.floor("R1", 38)
+    ctx.floor("R1", 40)
 
     # ---- R2 call forms and string forms reach the same helpers ---------------------
     cg = ctx.src.callgraph()
@@ -285,7 +292,22 @@ def _run(ctx):
     r = I.call(act, ["<s>", 0, [inner, rep, [v2, "mg"], f3]], {})
     eq(ctx, "R3", "repeated mass group: total_mass = n * inner + rest", I.getattr(r, "total_mass"),
        rep * (v1 + v2) + v2 * SI["m"], site)
-    ctx.floor("R3", 36)
+    # keywords given together with a mixture string do not lose what the string recorded
+    dd = sp.Symbol("dd", positive=True)
+    for text, attr, want in (("5g NaCl@2 // 50mL H2O@1", "total_mass", sp.Integer(55)),
+                             ("3nm NaCl@2 // 2nm H2O@1", "thickness", sp.Rational(5, 10 ** 9))):
+        for kw_ in ({"density": dd}, {"name": "mix"}, {"natural_density": dd}):
+            rr = raises(lambda: I.call(fm, [text], dict(kw_, table=w.table)))
+            if rr is not None:
+                ctx.fail("R3", f"formula({text!r}, {sorted(kw_)[0]}=...) keeps {attr}", f"raises {rr}", fsite(ctx, "formulas.formula"))
+                continue
+            fk = I.call(fm, [text], dict(kw_, table=w.table))
+            rv = raises(lambda: I.getattr(fk, attr))
+            if rv is not None:
+                ctx.fail("R3", f"formula({text!r}, {sorted(kw_)[0]}=...) keeps {attr}", f"the result has no {attr}", fsite(ctx, "formulas.formula"))
+            else:
+                eq(ctx, "R3", f"formula({text!r}, {sorted(kw_)[0]}=...) keeps {attr}", I.getattr(fk, attr), want, fsite(ctx, "formulas.formula"))
+    ctx.floor("R3", 42)
 
     # ---- R4 attributes read on formulas in the actions are written somewhere -------
     written = set()
